@@ -216,16 +216,20 @@ class UserRecord(object):
         self.is_exception = is_exception
 
 
-def build_expr(d, licensing=None, like=False):
+def build_expr(d, licensing=None, like=False, _rng=None):
     """Build implementation objects from the encoded tree (no parsing involved). With like=True every license is a
-    LicenseSymbolLike wrapping a user object, as an expression parsed over a table of objects has them."""
+    LicenseSymbolLike wrapping a user object, as an expression parsed over a table of objects has them; with like=<int> each
+    license occurrence is a plain symbol or a wrapped object by a seeded choice (expressions combined from two Licensings)."""
     le = imp()
-    if like:
-        def mk(k, ex):
+    if _rng is None and like is not True and like is not False:
+        import random as _random
+        _rng = _random.Random(like)
+
+    def mk(k, ex):
+        wrapped = like is True or (_rng is not None and _rng.random() < 0.5)
+        if wrapped:
             return le.LicenseSymbolLike(UserRecord(k, ex))
-    else:
-        def mk(k, ex):
-            return le.LicenseSymbol(k, is_exception=ex)
+        return le.LicenseSymbol(k, is_exception=ex)
     tag = d[0]
     if tag == 0:
         a = d[1]
@@ -234,8 +238,11 @@ def build_expr(d, licensing=None, like=False):
         l = mk(dec_str(a[1][0]), bool(a[1][1]))
         r = mk(dec_str(a[2][0]), bool(a[2][1]))
         return le.LicenseWithExceptionSymbol(l, r)
-    args = [build_expr(x, like=like) for x in d[1]]
+    args = [build_expr(x, like=like, _rng=_rng) for x in d[1]]
     return (le.AND if tag == 1 else le.OR)(*args)
+
+
+REPRESENTATIONS = (True, 1, 2)    # all wrapped, two seeded mixtures of plain symbols and wrapped user objects
 
 
 def enc_table(T):
